@@ -25,7 +25,7 @@ theorem walkVisits_inv (e : Env) (wf : WF e) (t : Nat) (fuel : Nat) (σ : St) (w
         · cases hp
         · rename_i hb
           have h1 := scheduleSlot_inv e σ t w wf hinv hlf hw
-          have h2 := closed_scheduleSlot (solid_closed e wf) wf σ t w hinv hlf hw hin hs
+          have h2 := closed_scheduleSlot (solid_closed e wf) wf σ t w hinv hlf trivial hw hin hs
           refine ih _ _ h1.1 h2 (walkOk_advance e t wf _ _ _ (h1.2 hcont)) ⟨?_, ?_⟩ p hp
           · simp only [Bool.or_eq_true, decide_eq_true_eq, not_or, Int.not_lt] at hb
             exact hb.1
@@ -124,7 +124,7 @@ theorem walkLoop_no_idle_has (e : Env) (wf : WF e) (t r : Nat) (fuel : Nat) (σ 
     have hhas := gate_closed_has e wf p.1 t p.2 r hi1 hs1 hw1 hin1 hrl htl hleaf hon hnl hg'
     obtain ⟨f', hf'⟩ := walkVisits_suffix e t fuel σ w p hp
     rw [hf']
-    exact closed_walkLoop (has_closed e r p.2.cur) wf t true f' p.1 p.2 hi1 hlf hw1 hin1 hhas
+    exact closed_walkLoop (has_closed e r p.2.cur) wf t true f' p.1 p.2 hi1 hlf trivial hw1 hin1 hhas
 
 end SP
 
